@@ -7,7 +7,10 @@ PROPS["C06"] = dict(
                "catalogue of 129 faults (per attribute: bad length short/long/zero, bad flags, bad value, duplicate, missing mandatory; attribute block and "
                "message framing; NLRI syntax) x every index of the faulty attribute x {eBGP, iBGP, confederation} x treat-as-withdraw on/off, plus pairs of "
                "faults. Layer 2 repeats every catalogue entry end to end (whole BgpServer in virtual time, injecting speaker + listening third speaker; "
-               "observed: NOTIFICATION octets, session state, ListPath ADJ_IN / GLOBAL, the third speaker's accumulated view). Oracle: an allowed-set table "
+               "observed: NOTIFICATION octets, session state, ListPath ADJ_IN / GLOBAL, the third speaker's accumulated view). Layer 3 repeats every (catalogue entry, peer type) on PIPELINED sessions: the speaker writes OPEN + KEEPALIVE + [valid routes] + the faulty UPDATE + one more "
+               "valid UPDATE back to back without waiting for gobgp (hold time 0 or 9 s), and in 3 of 5 cases the Established handler is held for 1-5 virtual ms at "
+               "its verifYield(\"established\") point so that the receive goroutine runs ahead of it; same oracle, plus: the trailing valid UPDATE must have been "
+               "processed whenever the session survives (an unanswered message with a dead receive side is keyed c06:pipelined:unanswered). Oracle: an allowed-set table "
                "written from RFC 7606 s3-s7, RFC 4271 s6.3, RFC 4760 s7, RFC 5065 s5, RFC 6793 s6, RFC 8092, plus metamorphic relations (monotonicity under "
                "a second fault, position independence, no penalty for base UPDATEs in every attribute rotation) and end-effect checks (after treat-as-withdraw "
                "every named prefix is gone; no installed route carries the injected attribute or lacks ORIGIN / AS_PATH / next hop).",
@@ -24,7 +27,7 @@ PROPS["C06"] = dict(
     exhaustive_note="Enumerated completely (both tiers): at layer 1 every single fault of the catalogue x every base UPDATE x every attribute index x {eBGP, iBGP, "
                     "confederation} x treat-as-withdraw {on, off} (ADD-PATH on/off follows the base), and every base x every rotation of its attributes x the 6 "
                     "sessions; at layer 2 every (catalogue entry, peer type, treat-as-withdraw) once and every base once per peer type. Thorough additionally "
-                    "enumerates every unordered pair of catalogue entries x every base x 6 sessions at layer 1 (attribute indices PRNG-drawn). Sampled: fault "
+                    "enumerates every unordered pair of catalogue entries x every base x 6 sessions at layer 1 (attribute indices PRNG-drawn). At layer 3 every (catalogue entry, peer type) once with treat-as-withdraw alternating and every base once (delivery options prelude / hold time / hold-up PRNG-drawn). Sampled: fault "
                     "pairs at layer 1 in the quick tier (5000 PRNG (base, pair) draws x 6 sessions), base / index choice and all pairs at layer 2.",
     assumptions=["reactions are ordered none < attribute discard < treat-as-withdraw < session reset; AFI/SAFI disable (RFC 4760 s7) is admitted wherever a reset is",
                  "RFC 7606 s3.c names the Optional and Transitive bits only: a wrong Partial bit may be ignored, treated as withdraw or reset",
@@ -35,7 +38,8 @@ PROPS["C06"] = dict(
                  "with revised handling off, RFC 6793's discard of malformed AS4_PATH / AS4_AGGREGATOR and a reset are both admitted",
                  "a withdraw-only message cannot tell none / discard / treat-as-withdraw apart end to end: any of them is accepted there"],
     must_count=["l1_single_evaluations", "l1_pair_evaluations", "l1_base_evaluations", "l1_position_groups", "l2_sessions", "l2_base_sessions", "l2_pair_sessions",
-                "l2_third_peer_checks", "l1_peer_ebgp", "l1_peer_ibgp", "l1_peer_confed", "l1_taw_on", "l1_taw_off", "l2_peer_ebgp", "l2_peer_ibgp",
+                "l2_third_peer_checks", "l3_sessions", "l3_base_sessions", "l3_react_reset", "l3_react_taw", "l3_react_discard", "l3_prelude_true", "l3_prelude_false",
+                "l3_hold_0", "l3_hold_9", "l3_established_held_up_true", "l3_established_held_up_false", "l1_peer_ebgp", "l1_peer_ibgp", "l1_peer_confed", "l1_taw_on", "l1_taw_off", "l2_peer_ebgp", "l2_peer_ibgp",
                 "l2_peer_confed", "l2_taw_on", "l2_taw_off", "l1_addpath_sessions", "l2_addpath_sessions", "l1_react_reset", "l1_react_taw", "l1_react_discard",
                 "l2_react_reset", "l2_react_taw", "l2_react_discard", "catalogue_entries"],
     min_nontrivial=1000,
